@@ -427,3 +427,78 @@ func (e *Env) CheckAll(progs []Program, variants []Variant) {
 	}
 	wg.Wait()
 }
+
+// CheckAgainstVariant uses the build variant `base` as the reference for the other variants
+// (differential oracle without native Go: e.g. DCE vs all-alive, plain vs minified).
+func (e *Env) CheckAgainstVariant(p Program, base Variant, others []Variant) {
+	atomic.AddInt64(&e.Programs, 1)
+	dir, err := e.WriteProgram(p)
+	if err != nil {
+		e.harness(err.Error())
+		return
+	}
+	defer os.RemoveAll(dir)
+	want, bres, _ := e.RunJS(dir, p, base)
+	if want.End == "harness" || want.End == "timeout" {
+		e.harness("reference variant of " + p.Name + " did not run: " + want.End)
+		return
+	}
+	if want.End == "builderror" {
+		e.harness("reference variant of " + p.Name + " does not build: " + oneLine(bres.Err))
+		return
+	}
+	for _, l := range want.Lines {
+		e.noteCase(caseOf(l))
+	}
+	if len(want.Lines) > 0 {
+		e.AddSample(p.Name + ": " + want.Lines[len(want.Lines)/2])
+	}
+	for _, v := range others {
+		got, br, script := e.RunJS(dir, p, v)
+		if got.End == "harness" || got.End == "timeout" {
+			e.harness("variant " + v.Name + " of " + p.Name + ": " + got.End)
+			continue
+		}
+		if got.End == "builderror" {
+			e.Rep.Violation(p.Name+"/"+v.Name+"/build", "variant "+base.Name+" builds, variant "+v.Name+" fails: "+oneLine(br.Err), e.replayFiles(p, v, want, got, br.Err))
+			continue
+		}
+		atomic.AddInt64(&e.Compared, int64(len(want.Lines)))
+		d := Diff(want, got)
+		if len(d) == 0 {
+			continue
+		}
+		r2, err := e.Nodes.Run(jsx.Req{Script: script, Globals: p.Globals, FifoTimers: true})
+		if err == nil {
+			got2 := ref.NormaliseJS(r2.Out, r2.End)
+			if strings.Join(got2.Lines, "\n") != strings.Join(got.Lines, "\n") || got2.End != got.End {
+				e.harness("non-reproducible JS execution of " + p.Name + "/" + v.Name)
+				continue
+			}
+		}
+		ids := make([]string, 0, len(d))
+		for c := range d {
+			ids = append(ids, c)
+		}
+		sort.Strings(ids)
+		for _, c := range ids {
+			e.Rep.Violation(c+"@"+v.Name+"-vs-"+base.Name, d[c], e.replayFiles(p, v, want, got, ""))
+		}
+	}
+}
+
+// CheckAllAgainstVariant runs CheckAgainstVariant for all programs in parallel.
+func (e *Env) CheckAllAgainstVariant(progs []Program, base Variant, others []Variant) {
+	var wg sync.WaitGroup
+	sem := make(chan struct{}, 16)
+	for _, p := range progs {
+		wg.Add(1)
+		sem <- struct{}{}
+		go func(p Program) {
+			defer wg.Done()
+			defer func() { <-sem }()
+			e.CheckAgainstVariant(p, base, others)
+		}(p)
+	}
+	wg.Wait()
+}
